@@ -79,6 +79,23 @@ def build_capacity_base(rnd):
     return s
 
 
+def build_bigcount_base(rnd):
+    """more than 2048 data fragments; the model needs far too long at this size: oracle only"""
+    from . import c07
+    b = c07.big_count_base(rnd)
+    s = session.Scn(b.ns, b.slot, b.blk)
+    me = dict(b.meta); me["big"] = True
+    n, sz, img = me["n"], me["sz"], me["img"]
+    s.meta = me
+    s.meta["fb_before"] = s.add("fb"); s.meta["fbvalid_before"] = s.add("validfb")
+    s.meta["start_op"] = s.add("start %d %d" % (sz, n))
+    s.meta["seg_ops"] = [s.add(session.seg_op(img, n, sz, i, False)) for i in me["seq"]]
+    s.meta["done_op"] = s.add("done")
+    s.meta["bl_op"] = s.add("bl"); s.meta["valid_op"] = s.add("validbl"); s.meta["dump_op"] = s.add("dumpbl %x %d" % (session.DRO, n * sz))
+    s.meta["fb_op"] = s.add("fb"); s.meta["fbvalid_after"] = s.add("validfb"); s.meta["hdrs_op"] = s.add("hdrs")
+    return s
+
+
 def build_wide_base(rnd):
     """more than 256 data fragments, one 256-aligned window of the segment status table never written, losses behind it"""
     from . import c07
@@ -195,8 +212,10 @@ def run(chk):
     lines, impl, refouts = session.run(chk, bases, stream="session-crash-ref")
     wides = [build_wide_base(rnd) for _ in range(1 if chk.quick() else 12)]
     wlines, wimpl, wrefouts = session.run(chk, wides, stream="session-crash-wide-ref")
-    cases, wcases = [], []
-    for b, ro in list(zip(bases, refouts)) + list(zip(wides, wrefouts)):
+    bigs = [build_bigcount_base(rnd) for _ in range(1 if chk.quick() else 6)]
+    blines, bimpl, brefouts = session.run(chk, bigs, stream="session-crash-bigcount-ref", with_model=False)
+    cases, wcases, bcases = [], [], []
+    for b, ro in list(zip(bases, refouts)) + list(zip(wides, wrefouts)) + list(zip(bigs, brefouts)):
         if len(ro) != len(b.ops):
             continue
         counts = crash.op_counts(b, ro)
@@ -207,7 +226,9 @@ def run(chk):
         idxs, _ = crash.interesting_indices(b, ro[b.meta["start_op"]:b.meta["done_op"] + 1], rnd, 10**9 if b.meta.get("big") else limit)
         # indices are relative to the first core op; the crash case arms the counter right before it
         shifted = [0] * b.meta["start_op"] + cc
-        if b.meta.get("big"):
+        if b.meta.get("bigcount"):
+            keep = set(rnd.sample(idxs, min(len(idxs), 10 if chk.quick() else 40))); idxs = [k for k in idxs if k in keep]
+        elif b.meta.get("big"):
             # power loss while the parity rows are being collected / during back substitution
             first_coded = b.meta["seg_ops"][len([i for i in b.meta["seq"] if i <= b.meta["n"]])]
             idxs = [k for k in idxs if (crash.locate(shifted, k) or (0, 0))[0] >= first_coded + (1 if b.meta.get("atcap") else 6)]
@@ -218,11 +239,12 @@ def run(chk):
             for resend in (True, False):
                 c = crash_case(b, ro, shifted, k, resend)
                 c.meta["window"] = window(b, ro, shifted, k, resend)
-                (wcases if b.meta.get("wide") else cases).append(c)
+                (bcases if b.meta.get("bigcount") else wcases if b.meta.get("wide") else cases).append(c)
     clines, cimpl, couts = session.run(chk, cases, stream="session-crash")
     wclines, wcimpl, wcouts = session.run(chk, wcases, stream="session-crash-wide")
-    nt, dist = [], {"phase": {}, "window_a": 0, "window_b": 0, "resend": 0, "lost": 0, "wide": len(wcases)}
-    for s, l, raw, out in list(zip(cases, clines, cimpl, couts)) + list(zip(wcases, wclines, wcimpl, wcouts)):
+    bclines, bcimpl, bcouts = session.run(chk, bcases, stream="session-crash-bigcount", with_model=False)
+    nt, dist = [], {"phase": {}, "window_a": 0, "window_b": 0, "resend": 0, "lost": 0, "wide": len(wcases), "bigcount(oracle only)": len(bcases)}
+    for s, l, raw, out in list(zip(cases, clines, cimpl, couts)) + list(zip(wcases, wclines, wcimpl, wcouts)) + list(zip(bcases, bclines, bcimpl, bcouts)):
         if len(out) != len(s.ops):
             chk.failures.append(core.Failure("harness produced no / truncated result", "session", "matrix", l, raw, key="crash")); break
         dist["phase"][s.meta["phase"]] = dist["phase"].get(s.meta["phase"], 0) + 1
@@ -232,9 +254,9 @@ def run(chk):
         for msg in oracle(s, out)[:1]:
             chk.failures.append(core.Failure(msg, "session", "matrix", l, raw[:2500], key="c06-window-" + w if w else "c06"))
         nt.append(l)
-    chk.note_cases("session-crash", clines + wclines, nt, sample_n=1, dist=dist)
+    chk.note_cases("session-crash", clines + wclines + [l[:300] for l in bclines], [l[:300] if len(l) > 5000 else l for l in nt], sample_n=1, dist=dist)
     return chk.finish(level="proof",
-        rule="session-crash: for each base delivery (capacity >= 1, up to 6 losses, three delivery orders, ring positions from random earlier updates and explicitly the pair that wraps the ring end; plus big-loss bases with 9..20 losses where power is lost from the seventh coded fragment on; plus at-capacity bases (exactly as many losses as the parity slot has rows, power lost from the second coded fragment on); plus wide bases - 520..620 one-byte fragments, one 256-aligned window of the status table never written and losses behind it, power lost during parity processing) power is lost at every modifying flash operation of start_update, every handle_segment and check_and_mark_done "
+        rule="session-crash: for each base delivery (capacity >= 1, up to 6 losses, three delivery orders, ring positions from random earlier updates and explicitly the pair that wraps the ring end; plus big-loss bases with 9..20 losses where power is lost from the seventh coded fragment on; plus big-count bases (2049..4000 one-byte fragments, power lost at sampled operations anywhere in the session; oracle only, the model needs far too long at this size); plus at-capacity bases (exactly as many losses as the parity slot has rows, power lost from the second coded fragment on); plus wide bases - 520..620 one-byte fragments, one 256-aligned window of the status table never written and losses behind it, power lost during parity processing) power is lost at every modifying flash operation of start_update, every handle_segment and check_and_mark_done "
              "(all boundaries; inside long erase runs the first, second and last block; sampled when a script has more than %d), each with both continuations (interrupted fragment re-sent / lost), then reboot, try_recover, remainder, one full data pass, final check; "
              "non-trivial = every crash case; distinct by case text" % limit,
         trusted=core.TRUSTED_COMMON + ["C06: power loss = prefix of the operation log (block-atomic erase); torn programs are C04's"])
